@@ -4,6 +4,10 @@ spec/Lattice.tla        Insert/ConnectEos recurrence + brute-force oracle BestTo
 spec/MC_Lattice.tla     all insertion sequences of the driver loop within bounds, 3 matrices (asymmetric, i16 extremes, 3x2)
 spec/Trace_Lattice.tla  whole analyses: every insert obeys the recurrence, node parameters = lexicon source,
                         best path is a tiling with recomputed cumulative costs and the lattice minimum
+spec/Analysis.tla       what the candidate words ARE: the lattice-building loop as the composition of index, word-start table and lattice;
+                        MC_Analysis: processing reachable positions only loses no segmentation (Complete, VisitedReachable)
+spec/Trace_Analysis.tla the same recorded analyses: positions visited = the reachable ones, dictionary candidates inserted at a position =
+                        exactly the lexicon's prefix matches with a permitted end (computed by TLC from the CSV keys), each once, before any OOV provider
 """
 import json
 import os
@@ -57,6 +61,66 @@ def project(src, dst):
     return n
 
 
+def project_analysis(src, dst):
+    """the lattice-building loop per run: world{dicts}, tables{mod, bow} (hoisted from the run's result), pos_begin, lat_ins, pos_done, lat_eos"""
+    runs, order, worlds = {}, [], []
+    for line in open(src):
+        e = json.loads(line)
+        if e["ev"] == "world":
+            order.append(("world", len(worlds)))
+            worlds.append({"ev": "world", "run": e["run"], "dicts": e["dicts"]})
+        elif "run" in e:
+            if e["run"] not in runs:
+                runs[e["run"]] = []
+                order.append(("run", e["run"]))
+            runs[e["run"]].append(e)
+    n = 0
+    with open(dst, "w") as out:
+        for kind, k in order:
+            if kind == "world":
+                out.write(json.dumps(worlds[k], separators=(",", ":")) + "\n")
+                continue
+            evs = runs[k]
+            res = next((e for e in evs if e["ev"] == "result"), None)
+            if res is None or res["res"] != "ok" or not res["mod"]:
+                continue          # refused, failed or empty inputs build no lattice to speak of (outcomes are C03's)
+            out.write(json.dumps({"ev": "tables", "run": k, "mod": res["mod"], "bow": res["bow"]}, separators=(",", ":")) + "\n")
+            for e in evs:
+                if e["ev"] in ("pos_begin", "pos_done", "lat_eos"):
+                    out.write(json.dumps({kk: e[kk] for kk in ("ev", "run", "p", "res") if kk in e}, separators=(",", ":")) + "\n")
+                elif e["ev"] == "lat_ins":
+                    out.write(json.dumps({kk: e[kk] for kk in ("ev", "run", "b", "e", "dic", "word")}, separators=(",", ":")) + "\n")
+            n += 1
+    return n
+
+
+def analysis_pass(out, tier, raw):
+    """Analysis.tla: the candidates inserted at every reachable position are exactly the lexicon's prefix matches with a permitted end"""
+    cfg = os.path.join(C.WORK, "tlc", f"MC_Analysis_{tier}.cfg")
+    with open(cfg, "w") as f:
+        f.write(f"SPECIFICATION MSpec\nCONSTANTS\n  MaxLen = {3 if tier == 'quick' else 4}\nINVARIANTS Complete VisitedReachable\nCHECK_DEADLOCK FALSE\n")
+    r = C.tlc_mc("MC_Analysis", cfg, workers=8, timeout=6000)
+    if r.violated:
+        out.violation(f"model invariant {r.violated} violated in MC_Analysis", {"tlc_tail": r.tail}, signature=f"C02/model/{r.violated}")
+    out.require_actions(r, ["MStart", "PosBegin", "MInsDict", "MInsOov", "PosDone", "Close"])
+    out.add_mc("MC_Analysis", r, {"MaxLen": 3 if tier == "quick" else 4})
+    tp = os.path.join(C.WORK, "traces", f"c02_a_{tier}.ndjson")
+    n = project_analysis(raw, tp)
+    events, rej = C.validate_trace(out, "Trace_Analysis", "Trace_Analysis.cfg", tp, "C02/candidates")
+    out.cov["analysis_runs_validated"] = n
+    if rej == 0:
+        # drop one dictionary candidate: the position may not be finished without it
+        idx = next(i for i, e in enumerate(events) if e["ev"] == "lat_ins" and e["dic"] != 15)
+        ev2 = [e for i, e in enumerate(events) if i != idx]
+        pp = os.path.join(C.WORK, "traces", "c02_probe_a.ndjson")
+        C.write_ndjson(pp, ev2)
+        m2, t2, _ = C.tlc_trace("Trace_Analysis", "Trace_Analysis.cfg", pp)
+        if m2 >= t2:
+            raise C.ToolError("corruption probe: a dropped dictionary candidate was not rejected")
+        out.cov["corruption_probe_candidates"] = f"the dictionary candidate of event {idx + 1} removed: rejected at event {m2 + 1}"
+    return rej
+
+
 def run(tier, replay=None):
     if replay:
         C.build_harness()
@@ -108,6 +172,7 @@ def run(tier, replay=None):
     tp = os.path.join(C.WORK, "traces", f"c02_p_{tier}.ndjson")
     project(raw, tp)
     events, rej = C.validate_trace(out, "Trace_Lattice", "Trace_Lattice.cfg", tp, "C02")
+    rej += analysis_pass(out, tier, raw)
     out.cov["traces_validated_against_impl"] += info["runs"]
     out.cov["evaluations"] += info["runs"]
     out.cov["generated_dictionaries"] = info["worlds"]
